@@ -224,6 +224,7 @@ class _Quantifier(_UnaryOperator):
         if index is None:
             self.neurons.append(neuron)
         else:
+            neuron.bounds_table = self.neurons[index].bounds_table.clone()
             self.neurons[index] = neuron
 
         return neuron
@@ -241,11 +242,9 @@ class _Quantifier(_UnaryOperator):
 
         input_bounds = input_bounds.permute([1, 0])[None, :, :]
 
-        self.neuron = self._create_neuron(arity=len(operand.grounding_table))
-        self.func = self.neuron.func
-        result = self.neuron.aggregate_bounds([0], self.func(input_bounds), bound)
-        self.neuron.bounds_table = self.neuron.bounds_table[0]
-        return result
+        neuron = self._create_neuron(arity=len(operand.grounding_table))
+        self.func = neuron.func
+        return self.neuron.aggregate_bounds(None, self.func(input_bounds)[0], bound)
 
     def _fully_quantified_downward(self):
         operand = self.operands[0]
